@@ -165,9 +165,9 @@ type Disk struct {
 	// StableDelay: a stable-store write takes this long before it takes effect (or the armed fault strikes). Meanwhile the
 	// goroutine that issued it (usually raft's main loop) sits in the call while the others (heartbeat fast path, API readers) go on.
 	StableDelay time.Duration
-	w          *World
-	name       string
-	flavor     Flavor
+	w           *World
+	name        string
+	flavor      Flavor
 
 	mu      sync.Mutex
 	epoch   int
